@@ -369,6 +369,208 @@ def c19(run):
         g.exh_setters(q(run, [0x00], [0, 0xff]))
     return C.execute(run, gen, monitor=M.mon_flags)
 
+# ---------------------------------------------------------------------------------------------
+# C20: register dump and the debug_registers tool
+
+def fnv(bs):
+    h = 2166136261
+    for b in bs:
+        h = ((h ^ b) * 16777619) & 0xffffffff
+    return h
+
+def chip_view(d):
+    """what a read of each register 0x01..0x70 returns, from the simulator's own dump"""
+    s, l, f = d['s'], d['l'], d['f']
+    is_lora = (s[1] & 0x80) != 0 and (s[1] & 0x40) == 0
+    out = [0]
+    for a in range(1, 0x71):
+        if 0x0d <= a <= 0x3f:
+            if is_lora:
+                v = l[a]
+            elif a == 0x3f:
+                v = f[0x3f] & 0x1f
+                thr = f[0x35] & 0x3f
+                n = len(d['fifo'])
+                if n >= 64: v |= 0x80
+                if n == 0: v |= 0x40
+                if n > thr: v |= 0x20
+            else:
+                v = f[a]
+        else:
+            v = s[a]
+        out.append(v)
+    return out
+
+def mon_c20(run, script, il, iab, ml):
+    import json as _json
+    for i, kind, args in M.expectations(il):
+        if kind != 'dumpregs':
+            continue
+        ops = M.prev_ops(il, i)
+        dumps = [M.dump_of(l) for l in ops if l.startswith('chip ')]
+        call = next((M.fields(l) for l in reversed(ops) if l.startswith('dump_registers ')), None)
+        if not dumps or call is None:
+            run.cov['monitor_skipped'] = run.cov.get('monitor_skipped', 0) + 1
+            continue
+        run.cov['monitor_checks'] += 1
+        ents = M.spi_entries(call.get('spi'))
+        if len(ents) != 1 or ents[0]['kind'] != 'RB' or ents[0]['reg'] != 1 or ents[0]['n'] != 0x70 or ents[0]['fault'] is not None:
+            run.violation('sx127x_dump_registers is not one raw burst read of 0x70 bytes from address 1: %s' % call.get('spi', '')[:60], script)
+            continue
+        data = [0] + list(bytes.fromhex(ents[0]['data']))
+        rc = call.get('rc', '').split(',')
+        if rc[0] != '0' or len(rc) < 2 or int(rc[1], 16) != fnv(data):
+            run.violation('sx127x_dump_registers output is not 0 followed by the bytes read (rc=%s)' % call.get('rc'), script)
+            continue
+        want = chip_view(dumps[-1])
+        if data != want:
+            k = next(j for j in range(0x71) if data[j] != want[j])
+            run.violation('register dump differs from the chip at 0x%02x: dump %02x, chip %02x' % (k, data[k], want[k]), script)
+            continue
+        cfg = _json.loads(args[0]) if args and args[0] != '{}' else None
+        run.c20_cases.append((script, data, cfg))
+
+def tool_kv(text):
+    kv = {}
+    for line in text.splitlines():
+        if line.startswith('\t') and '=' in line:
+            k, v = line[1:].split('=', 1)
+            kv.setdefault(k, v.strip())
+    return kv
+
+LORA_BW = {0x00: '7.8 kHz', 0x10: '10.4 kHz', 0x20: '15.6 kHz', 0x30: '20.8kHz', 0x40: '31.25 kHz', 0x50: '41.7 kHz',
+           0x60: '62.5 kHz', 0x70: '125 kHz', 0x80: '250 kHz', 0x90: '500 kHz'}
+MODES = {0: 'SLEEP', 1: 'STDBY', 3: 'Transmit (TX)', 5: 'Receive continuous'}
+
+def c20(run):
+    d = C.scratch()
+    run.c20_cases = []
+    H = os.path.join(C.ROOT, 'harness')
+    main_c = os.path.join(C.REPO, 'debug_registers', 'main.c')
+    san = ['-std=gnu99', '-O1', '-g', '-fsanitize=address,undefined', '-fno-sanitize-recover=all', '-w']
+    steps = [['gcc'] + san + ['-Dmain=tool_main', '-c', main_c, '-o', os.path.join(d, 'toolmain.o')],
+             ['gcc'] + san + [os.path.join(H, 'toolh.c'), os.path.join(d, 'toolmain.o'), '-o', os.path.join(d, 'toolh')],
+             ['gcc'] + san + [main_c, '-o', os.path.join(d, 'debug_registers')]]
+    for c in steps:
+        r = C.sh(c)
+        if r.returncode != 0:
+            run.violation('debug_registers does not build: ' + r.stderr[-300:], ['# tool build'])
+            return []
+    env = dict(os.environ, ASAN_OPTIONS='detect_leaks=0')
+    # (a) dumps of configured chips: driver vs model, dump vs chip
+    def gen(g):
+        g.dumps(q(run, 80, 1200))
+    divs = C.execute(run, gen, monitor=mon_c20)
+    # (b) the real tool on the real dumps, printed as the README prescribes
+    import math
+    for script, data, cfg in run.c20_cases[:q(run, 120, 2000)]:
+        arg = ','.join('0x%02x' % b for b in data)
+        r = C.sh([os.path.join(d, 'debug_registers'), arg], env=env)
+        run.cov['monitor_checks'] += 1
+        run.cov['tool_runs'] = run.cov.get('tool_runs', 0) + 1
+        if r.returncode != 0:
+            run.violation('debug_registers fails on a dump in the README format: exit %d %s' % (r.returncode, (r.stderr.strip().splitlines() or [''])[0][:120]), script, {'argument': arg})
+            continue
+        kv = tool_kv(r.stdout)
+        bad = []
+        def expect(key, val):
+            if kv.get(key) != val:
+                bad.append('%s=%s (expected %s)' % (key, kv.get(key), val))
+        lora = (data[1] & 0x80) != 0
+        expect('LongRangeMode', 'LORA' if lora else 'FSK')
+        if (data[1] & 7) in MODES:
+            expect('Mode', MODES[data[1] & 7])
+        frf = (data[6] << 16) | (data[7] << 8) | data[8]
+        expect('Frf', str((frf * 32000000) >> 19))
+        if lora:
+            if (data[0x1d] & 0xf0) in LORA_BW:
+                expect('Bw', LORA_BW[data[0x1d] & 0xf0])
+            expect('ImplicitHeaderModeOn', str(data[0x1d] & 1))
+            expect('SpreadingFactor', str(data[0x1e] >> 4))
+            expect('SyncWord', str(data[0x39]))
+            expect('PreambleLength', str((data[0x20] << 8) | data[0x21]))
+            expect('PayloadLength', str(data[0x22]))
+        else:
+            div = ((data[2] << 8) | data[3]) + data[0x5d] / 16.0
+            if div:
+                expect('BitRate', '%f' % (32000000.0 / div))
+            expect('Fdev', '%f' % ((32000000.0 / (1 << 19)) * (((data[4] & 0x3f) << 8) | data[5])))
+            expect('PayloadLength', str(((data[0x31] & 7) << 8) | data[0x32]))
+            expect('PacketFormat', 'Variable' if data[0x30] & 0x80 else 'Fixed')
+            expect('CrcOn', '1' if data[0x30] & 0x10 else '0')
+            expect('PreambleSize', str((data[0x25] << 8) | data[0x26]))
+        # the configured values, where the script recorded them
+        if cfg:
+            if abs(int(kv.get('Frf', '0')) - cfg['freq']) >= 250:
+                bad.append('Frf=%s for a configured carrier of %d Hz' % (kv.get('Frf'), cfg['freq']))
+            if lora:
+                if kv.get('Bw') != LORA_BW.get(cfg['bw']): bad.append('Bw=%s for bandwidth code %02x' % (kv.get('Bw'), cfg['bw']))
+                if kv.get('SpreadingFactor') != str(cfg['sf'] >> 4): bad.append('SpreadingFactor=%s for %02x' % (kv.get('SpreadingFactor'), cfg['sf']))
+                if kv.get('SyncWord') != str(cfg['syncword']): bad.append('SyncWord=%s for %d' % (kv.get('SyncWord'), cfg['syncword']))
+                if kv.get('PreambleLength') != str(cfg['preamble']): bad.append('PreambleLength=%s for %d' % (kv.get('PreambleLength'), cfg['preamble']))
+                if kv.get('ImplicitHeaderModeOn') != str(cfg['implicit']): bad.append('ImplicitHeaderModeOn=%s' % kv.get('ImplicitHeaderModeOn'))
+            else:
+                if kv.get('PayloadLength') != str(cfg['plen']): bad.append('PayloadLength=%s for a configured length of %d' % (kv.get('PayloadLength'), cfg['plen']))
+                if kv.get('PacketFormat') != ('Variable' if cfg['fmt'] else 'Fixed'): bad.append('PacketFormat=%s' % kv.get('PacketFormat'))
+                if kv.get('CrcOn') != ('0' if cfg['crc'] == 0x08 else '1'): bad.append('CrcOn=%s for crc type %02x' % (kv.get('CrcOn'), cfg['crc']))
+                if kv.get('PreambleSize') != str(cfg['preamble']): bad.append('PreambleSize=%s for %d' % (kv.get('PreambleSize'), cfg['preamble']))
+                br = float(kv.get('BitRate', 'nan'))
+                step = br * br / 32000000.0 / (16 if cfg['mod'] == 0 else 1)
+                if not (abs(br - cfg['bitrate']) <= step + 1e-6):
+                    bad.append('BitRate=%s for a configured %r' % (kv.get('BitRate'), cfg['bitrate']))
+                if 'fdev' in cfg and not (abs(float(kv.get('Fdev', 'nan')) - cfg['fdev']) < 61.04):
+                    bad.append('Fdev=%s for a configured %r' % (kv.get('Fdev'), cfg['fdev']))
+        if bad:
+            run.violation('debug_registers decodes a dump differently from what was configured/is in the registers: ' + '; '.join(bad[:3]), script, {'argument': arg})
+    # (c) argument strings: parser and main() of the real tool (ASan/UBSan) vs the Lean model
+    import random as _random
+    r = _random.Random(run.seed * 31 + 20)
+    def rand_dump(n):
+        return [r.randint(0, 255) for _ in range(n)]
+    strs = ['', ',', ',,,,', '0x', '0x0', '0', 'x', '0x01', '0x01,', ',0x01', '0x01,0x02', '0X01', '0x1g', ' 0x01 : 0x02 , 0x03 ', '00x1',
+            '0,9,26,11,0,82,108,128', 'ff' * 40, '0x' * 50, ',' * 300, '0x00' + ',0x00' * 0x70, '0x00' + ',0x81' * 0x70, '0x00' + ',0x00' * 0x6f]
+    for _ in range(q(run, 300, 5000)):
+        kind = r.random()
+        n = r.choice([0, 1, 2, 0x70, 0x71, 0x72, 0x100, r.randint(0, 0x90)])
+        vals = rand_dump(n)
+        if kind < 0.3:
+            t = ','.join('0x%02x' % v for v in vals)
+        elif kind < 0.45:
+            t = ','.join('%d' % v for v in vals)           # the README's run example
+        elif kind < 0.6:
+            t = ', '.join('0x%x' % v for v in vals) + r.choice(['', ',', ' ', ',,'])
+        elif kind < 0.75:
+            t = ','.join('0x%02x' % v for v in vals)
+            t = t[:r.randint(0, len(t))]                     # truncated
+        else:
+            t = ''.join(r.choice('0123456789abcdefABCDEFx,: gz-') for _ in range(r.randint(0, 120)))
+        strs.append(t)
+    lines = []
+    for t in strs:
+        hx = t.encode('latin-1').hex() or '-'
+        lines.append('parse ' + hx)
+        lines.append('tool ' + hx)
+    inp = '\n'.join(lines) + '\n'
+    ri = C.sh([os.path.join(d, 'toolh')], input=inp, env=env)
+    rm = C.sh([C.SXMODEL], input=inp)
+    il, ml = ri.stdout.splitlines(), rm.stdout.splitlines()
+    run.cov['tool_strings'] = len(strs)
+    run.cov['evaluations'] += len(lines)
+    if ri.returncode != 0:
+        k = len(il)
+        t = strs[min(k // 2, len(strs) - 1)]
+        run.violation('debug_registers accesses memory out of bounds (sanitizer abort) for the argument %r: %s' % (t[:60], (ri.stderr.strip().splitlines() or ['?'])[0][:100]),
+                      ['# tool argument'] + lines[max(0, k - 1):k + 1], {'argument': t})
+    else:
+        for k in range(len(lines)):
+            a = il[k] if k < len(il) else '<end>'
+            b = ml[k] if k < len(ml) else '<end>'
+            run.cov['monitor_checks'] += 1
+            if a != b:
+                divs.append({'script': '# tool argument %r (%s)' % (strs[k // 2][:100], lines[k][:80]), 'kind': 'tool-parser', 'index': k, 'impl': a, 'model': b})
+                break
+    return divs
+
 CHECKS = {'C01': c01, 'C02': c02, 'C03': c03, 'C04': c04, 'C05': c05, 'C06': c06, 'C07': c07, 'C08': c08, 'C09': c09,
-          'C10': c10, 'C11': c11, 'C12': c12, 'C13': c13, 'C14': c14, 'C15': c15, 'C16': c16, 'C17': c17, 'C18': c18, 'C19': c19}
+          'C10': c10, 'C11': c11, 'C12': c12, 'C13': c13, 'C14': c14, 'C15': c15, 'C16': c16, 'C17': c17, 'C18': c18, 'C19': c19, 'C20': c20}
 LEVEL = {}
